@@ -43,8 +43,11 @@ def extra_for(code, tag, rng):
     if code <= 100:
         return ""
     e = "Contact: <sip:peer-%s@10.9.9.%d:5070;transport=udp>\r\n" % (tag, 9)
-    if rng.random() < 0.5:
+    r = rng.random()
+    if r < 0.3:
         e += "Record-Route: <sip:p1.example.org;lr>, <sip:p2.example.org;lr>\r\n"
+    elif r < 0.5:
+        e += "Record-Route: <sip:p1.example.org;lr>\r\nRecord-Route: <sip:p2.example.org;lr>\r\nRecord-Route: <sip:p3.example.org;lr>\r\n"
     if 101 <= code <= 199 and rng.random() < 0.3:
         e += "Require: 100rel\r\nRSeq: %d\r\n" % rng.randrange(1, 1000)
     if 200 <= code <= 299 and rng.random() < 0.4:
@@ -213,8 +216,20 @@ def oracle(case, impl):
             return ["session for To-tag %s has peer tag %s" % (tag, ptag)]
         if "peer-%s@" % tag not in target:
             return ["session for To-tag %s has remote target %s, not the Contact of its own response" % (tag, target)]
-        if routes not in ("", "sip:p2.example.org;lr+sip:p1.example.org;lr"):
-            return ["session route set %r is not the reversed Record-Route" % routes]
+        # the route set is the Record-Route list of the response that created (or, RFC 3261 13.2.2.4, confirmed) the dialog,
+        # reversed - whether the list came as one comma separated line or as several lines
+        ok = set()
+        for st in [x for x in case[4].split(",") if x]:
+            a = st.split(":")
+            if len(a) >= 5 and a[1] == "resp" and a[3] == tag and int(a[2]) > 100:
+                extra = bytes.fromhex(a[4]).decode("utf-8", "replace") if a[4] else ""
+                rr = []
+                for line in extra.split("\r\n"):
+                    if line.lower().startswith("record-route:"):
+                        rr += [x.strip().strip("<>") for x in line.split(":", 1)[1].split(",")]
+                ok.add("+".join(reversed(rr)))
+        if ok and routes not in ok:
+            return ["session route set %r is not the reversed Record-Route of its responses (%r)" % (routes, sorted(ok))]
     fin = [t for n, t in _tokens(impl) if n == "finished"]
     if first2xx is not None:
         if fin != [first2xx + 32000]:
